@@ -90,6 +90,11 @@ type PutSpec struct {
 	Trailer   string
 }
 
+type PartRef struct {
+	Num  int
+	ETag string
+}
+
 type Stmt struct {
 	Allow      bool
 	Principals []string
@@ -122,6 +127,11 @@ type Op struct {
 	Bypass bool
 	Now    int64
 	Mode   string // lock: "" | "G" | "C"
+	UpID   string
+	Num    int
+	Data   []Seg
+	Range  *[2]int
+	Parts  []PartRef
 	Days   int
 	Until  int64
 }
@@ -139,6 +149,11 @@ func showKVs(m []KV) string {
 		p = append(p, hx(kv.K)+":"+hx(kv.V))
 	}
 	return strings.Join(p, ",")
+}
+
+func md5q(b []byte) string {
+	s := md5.Sum(b)
+	return "\"" + hex.EncodeToString(s[:]) + "\""
 }
 
 func (p *PutSpec) ETag() string {
@@ -288,8 +303,41 @@ func (o *Op) ModelLine(obs *Obs) string {
 		a = []string{hx(o.B), hx(o.K), showKVs(o.Tags)}
 	case "getObjectTagging", "deleteObjectTagging":
 		a = []string{hx(o.B), hx(o.K)}
-	case "listVersions", "getLockConfig":
+	case "listVersions", "getLockConfig", "listUploads":
 		a = []string{hx(o.B)}
+	case "createUpload":
+		a = []string{hx(o.B), hx(o.K), hx(obs.NewID), o.Put.line()}
+	case "uploadPart":
+		a = []string{hx(o.B), hx(o.K), hx(o.UpID), strconv.Itoa(o.Num), ShowData(o.Data), hx(strings.Trim(md5q(Expand(o.Data)), "\""))}
+	case "uploadPartCopy":
+		rg := "~"
+		if o.Range != nil {
+			rg = fmt.Sprintf("%d:%d", o.Range[0], o.Range[1])
+			if o.Range[1] < 0 {
+				rg = fmt.Sprintf("%d:4611686018427387904", o.Range[0])
+			}
+		}
+		a = []string{hx(o.B), hx(o.K), hx(o.UpID), strconv.Itoa(o.Num), hx(o.SB), hx(o.SK), hx(o.SVid), rg, hx(obs.CopyETag)}
+	case "listParts", "abortUpload":
+		a = []string{hx(o.B), hx(o.K), hx(o.UpID)}
+	case "completeUpload":
+		var ps []string
+		var cat []byte
+		for _, p := range o.Parts {
+			ps = append(ps, fmt.Sprintf("%d:%s", p.Num, hx(p.ETag)))
+			raw, err := hex.DecodeString(strings.Trim(p.ETag, "\""))
+			if err != nil {
+				raw = []byte(p.ETag)
+			}
+			cat = append(cat, raw...)
+		}
+		sum := md5.Sum(cat)
+		mp := fmt.Sprintf("\"%s-%d\"", hex.EncodeToString(sum[:]), len(o.Parts))
+		j := "-"
+		if len(ps) > 0 {
+			j = strings.Join(ps, ",")
+		}
+		a = []string{hx(o.B), hx(o.K), hx(o.UpID), j, hx(mp), hx(obs.NewVid)}
 	case "putLockConfig":
 		a = []string{hx(o.B), b01(o.On), opt(o.Mode), strconv.Itoa(o.Days)}
 	case "putRetention":
@@ -304,12 +352,14 @@ func (o *Op) ModelLine(obs *Obs) string {
 
 // Obs is what the implementation answered, canonicalised.
 type Obs struct {
-	Status  int
-	Code    string
-	Fields  []KV
-	NewVid  string
-	NewVids []string
-	Raw     gw.Resp
+	NewID    string
+	CopyETag string
+	Status   int
+	Code     string
+	Fields   []KV
+	NewVid   string
+	NewVids  []string
+	Raw      gw.Resp
 }
 
 func (o *Obs) Line() string {
@@ -367,6 +417,9 @@ func canonCode(r gw.Resp, anon bool) string {
 		return "AccessDenied"
 	}
 	if c := r.ErrCode(); c != "" {
+		if c == "VersionedBucketNotEmpty" {
+			return "BucketNotEmpty"
+		}
 		return c
 	}
 	switch r.Status {
@@ -498,6 +551,9 @@ type xmlACL struct {
 
 // Exec runs one op against the world.
 func (w *World) Exec(o *Op) *Obs {
+	if o.Now == 0 {
+		o.Now = time.Now().Unix()
+	}
 	cr, defect := w.creds(o.Caller)
 	anon := strings.HasPrefix(o.Caller, "anon")
 	req := gw.Req{Auth: "header", Creds: cr, Defect: defect}
@@ -891,6 +947,101 @@ func (w *World) Exec(o *Op) *Obs {
 			xml.Unmarshal(r.Body, &c)
 			obs.Fields = append(obs.Fields, KV{"hold", c.Status})
 		}
+	case "createUpload":
+		req.Method, req.Path, req.Query = "POST", kpath, "uploads"
+		w.putHeaders(&req, o.Put)
+		fields = func(r gw.Resp) {
+			var res struct {
+				Key      string `xml:"Key"`
+				UploadId string `xml:"UploadId"`
+			}
+			xml.Unmarshal(r.Body, &res)
+			obs.NewID = res.UploadId
+			obs.Fields = append(obs.Fields, KV{"key", hx(res.Key)}, KV{"uploadid", hx(res.UploadId)})
+		}
+	case "uploadPart":
+		req.Method, req.Path, req.Query, req.Body = "PUT", kpath, fmt.Sprintf("uploadId=%s&partNumber=%d", gw.EncodeQueryValue(o.UpID), o.Num), Expand(o.Data)
+		if o.Put != nil && o.Put.Encoding != "" {
+			req.Auth, req.Chunks, req.Trailer = o.Put.Encoding, o.Put.Chunks, o.Put.Trailer
+		}
+		fields = func(r gw.Resp) { obs.Fields = append(obs.Fields, KV{"etag", hx(r.Headers.Get("ETag"))}) }
+	case "uploadPartCopy":
+		req.Method, req.Path, req.Query = "PUT", kpath, fmt.Sprintf("uploadId=%s&partNumber=%d", gw.EncodeQueryValue(o.UpID), o.Num)
+		src := gw.EncodePath(o.SB + "/" + o.SK)
+		if o.SVid != "" {
+			src += "?versionId=" + o.SVid
+		}
+		req.Set("x-amz-copy-source", src)
+		if o.Range != nil {
+			if o.Range[1] < 0 {
+				req.Set("x-amz-copy-source-range", fmt.Sprintf("bytes=%d-", o.Range[0]))
+			} else {
+				req.Set("x-amz-copy-source-range", fmt.Sprintf("bytes=%d-%d", o.Range[0], o.Range[1]))
+			}
+		}
+		fields = func(r gw.Resp) {
+			var cr struct {
+				ETag string `xml:"ETag"`
+			}
+			xml.Unmarshal(r.Body, &cr)
+			obs.CopyETag = cr.ETag
+			obs.Fields = append(obs.Fields, KV{"etag", hx(cr.ETag)})
+		}
+	case "listParts":
+		req.Method, req.Path, req.Query = "GET", kpath, "uploadId="+gw.EncodeQueryValue(o.UpID)
+		fields = func(r gw.Resp) {
+			var lp struct {
+				Parts []struct {
+					PartNumber int    `xml:"PartNumber"`
+					ETag       string `xml:"ETag"`
+					Size       int64  `xml:"Size"`
+				} `xml:"Part"`
+			}
+			xml.Unmarshal(r.Body, &lp)
+			var ps []string
+			for _, p := range lp.Parts {
+				ps = append(ps, fmt.Sprintf("%d:%d:%s", p.PartNumber, p.Size, hx(p.ETag)))
+			}
+			obs.Fields = append(obs.Fields, KV{"parts", strings.Join(ps, ",")})
+		}
+	case "listUploads":
+		req.Method, req.Path, req.Query = "GET", bpath, "uploads"
+		fields = func(r gw.Resp) {
+			var lu struct {
+				Uploads []struct {
+					Key      string `xml:"Key"`
+					UploadId string `xml:"UploadId"`
+				} `xml:"Upload"`
+			}
+			xml.Unmarshal(r.Body, &lu)
+			var us []string
+			for _, u := range lu.Uploads {
+				us = append(us, hx(u.Key)+":"+hx(u.UploadId))
+			}
+			sort.Strings(us)
+			obs.Fields = append(obs.Fields, KV{"uploads", strings.Join(us, ",")})
+		}
+	case "completeUpload":
+		req.Method, req.Path, req.Query = "POST", kpath, "uploadId="+gw.EncodeQueryValue(o.UpID)
+		var b bytes.Buffer
+		b.WriteString(`<CompleteMultipartUpload xmlns="http://s3.amazonaws.com/doc/2006-03-01/">`)
+		for _, p := range o.Parts {
+			fmt.Fprintf(&b, "<Part><PartNumber>%d</PartNumber><ETag>", p.Num)
+			xml.EscapeText(&b, []byte(p.ETag))
+			b.WriteString("</ETag></Part>")
+		}
+		b.WriteString(`</CompleteMultipartUpload>`)
+		req.Body = b.Bytes()
+		fields = func(r gw.Resp) {
+			var cr struct {
+				ETag string `xml:"ETag"`
+			}
+			xml.Unmarshal(r.Body, &cr)
+			obs.NewVid = r.Headers.Get("x-amz-version-id")
+			obs.Fields = append(obs.Fields, KV{"etag", hx(cr.ETag)}, KV{"vid", hx(obs.NewVid)})
+		}
+	case "abortUpload":
+		req.Method, req.Path, req.Query = "DELETE", kpath, "uploadId="+gw.EncodeQueryValue(o.UpID)
 	default:
 		obs.Code = "HARNESS:unknown-op:" + o.Kind
 		return obs
